@@ -248,8 +248,20 @@ def resume_from(w, mon, path, case, keys, second_fault=None, depth=0):
         with w.incarnation(plan=plan2) as inc:
             s = inc.new_sampler(**over)
             try:
-                s.run(n_total=case.get("resume_n_total", case["n_total"]), progress=False, resume_state_path=path, save_every=case.get("save_every"))
+                se2 = case.get("resume_save_every", case.get("save_every"))
+                s.run(n_total=case.get("resume_n_total", case["n_total"]), progress=False, resume_state_path=path, save_every=se2)
                 out["done"] = True
+                if se2 and second_fault is None:
+                    # the resumed run checkpoints every se2 iterations counted from the iteration it resumed at, under the documented names
+                    lab = case["cfg"].get("output_label", "ps")
+                    t0 = int(snap["current"].get("iter") or 0)
+                    n_it = len(s.state._history["beta"])
+                    want = [f"/simfs/out/{lab}_{i}.state" for i in range(t0 + 1, n_it) if (i - t0) % int(se2) == 0]
+                    have = set(w.fs.files("/simfs/out"))
+                    missing = [p for p in want if p not in have]
+                    if missing and inc.n_commits > 0:
+                        w.violation(PROP, "O2.resumed_checkpoint_cadence", f"resumed at iteration {t0} with save_every={se2}: expected checkpoints {[m.split('/')[-1] for m in missing[:4]]} were not written "
+                                    f"(present: {sorted(x.split('/')[-1] for x in have if x.endswith('.state'))[:10]})", **keys)
             except SimCrash as e:
                 forget(e)
                 out["crashed_again"] = True
@@ -528,6 +540,8 @@ def base_case(rnd, seed, arm):
     case.update(ev)
     if rnd.random() < 0.25:
         case["cfg"]["output_label"] = rnd.choice(["beta0.5", "run.v1", "a-b_c"])
+    if rnd.random() < 0.3:
+        case["resume_save_every"] = rnd.choice([1, 2, 3, 4])  # the resumed run may checkpoint on another cadence
     if rnd.random() < 0.35:
         # "resume and extend": the resumed run asks for a different number of effective samples
         case["resume_n_total"] = rnd.choice([case["n_total"] * 2, case["n_total"] * 4, max(32, case["n_total"] // 2)])
@@ -560,7 +574,7 @@ def cases(seed, tier):
         if k == len(canon):
             tgt = gen.gen_target(r, kinds=("gauss",), d=6, blobs=0)
             case = dict(arm="crash", seed=sch.np_seed(f"e{k}"), target=tgt, cfg=dict(n_particles=128, clustering=False, sample="rwm", resample="mult", random_state=5), n_total=512, save_every=2,
-                        progress=False, stderr="stringio", extra_saves=[], eval="vector", big=True, enumerate_cap=90)
+                        progress=False, stderr="stringio", extra_saves=[], eval="vector", big=True, enumerate_cap=60)
         elif k < len(canon):
             c = canon[k]
             tgt = gen.gen_target(r, kinds=("gauss",), d=2, blobs=c["blobs"])
@@ -638,6 +652,8 @@ def shrink(case):
         yield mod(resume_n_total=None)
     if c.get("second_fault"):
         yield mod(second_fault=None)
+    if c.get("resume_save_every"):
+        yield mod(resume_save_every=None)
 
 
 def evidence(results, cases_, tier):
